@@ -9,10 +9,10 @@ kani_unit("prover_channel", "winter-prover", "prover/src/channel.rs", "kani/prov
       "forall roots: each commit appends exactly that root to the proof's commitments and reseeds the coin with exactly that root, once, in call order; challenges are drawn from the coin state reached after the absorptions"),
     H("prover_channel_ood_contract", ["C04"], ["ProverChannel::send_ood_trace_states", "ProverChannel::send_ood_constraint_evaluations", "OodFrame::set_trace_states", "OodFrame::set_constraint_evaluations"],
       "the coin absorbs hash_elements of exactly the elements written into the proof's OOD frame (which decodes back to them)",
-      bounded="1 column, 1 evaluation, no Lagrange frame; element values symbolic"),
+      bounded="1 column, 1 evaluation, no Lagrange frame; element values symbolic", tier="thorough"),
     H("prover_channel_queries_bounded", ["C04", "C19"], ["ProverChannel::grind_query_seed", "ProverChannel::get_query_positions"],
       "pow_nonce is the least nonce >= 1 whose check_leading_zeros under the current coin reaches the grinding factor (grinding does not advance the coin); positions == sorted, de-duplicated draw_integers(num_queries, lde_domain_size, pow_nonce)",
-      bounded="2 queries, LDE domain 16, grinding factor 1, one of the first three nonces succeeds", timeout=600),
+      bounded="2 queries, LDE domain 16, grinding factor 1, one of the first three nonces succeeds", timeout=600, tier="thorough"),
     H("prover_channel_canary_must_fail", ["C04"], [], "false claim: commit_trace leaves the coin unchanged", canary=True),
 ])
 for u in UNITS:
